@@ -212,14 +212,29 @@ def tree_crossover(h: Harness, rng):
                     [sx(gram.spec_sx(spec)), sx(a), sx(bb), sx(cc)], nontrivial=sx(a) != sx(bb))
 
 
+def generations_corpus():
+    """Expr -> Lit | Add(Expr, Expr) | Mul(Expr, Expr) with the CONCRETE start symbol Add (donors of the start type
+    exist at every level) -- and the same with a list-carrying production"""
+    C = gram.ClassSpec
+    lit = C("Lit", False, 0, [("v", ("ann", "int", ("intRange", 0, 9)))])
+    return [
+        gram.Spec([C("Expr", True, None), lit, C("Add", False, 0, [("l", ("cls", 0)), ("r", ("cls", 0))]),
+                   C("Mul", False, 0, [("l", ("cls", 0)), ("r", ("cls", 0))])], 2, [1, 2, 3]),
+        gram.Spec([C("Expr", True, None), lit, C("Add", False, 0, [("l", ("cls", 0)), ("r", ("cls", 0))]),
+                   C("Sum", False, 0, [("xs", ("ann", ("list", ("cls", 0)), ("listSize", 1, 3)))])], 2, [1, 2, 3]),
+    ]
+
+
 def tree_crossover_generations(h: Harness, rng):
     """CONCRETE recursive start symbol (donor subtrees exist): crossover over several generations --
     children that are themselves crossover results become parents.  Every child must be one parent
     with one subtree (here: the root) replaced by a subtree of the other parent."""
-    for _ in range(h.n(25, 300)):
-        spec = gram.productive_spec(rng, max_classes=rng.choice([3, 4, 5]), opts={"float": False})
-        if not gram.concrete_recursive_start(spec, rng):
-            continue
+    fixed = [(spec, True) for spec in generations_corpus() for _ in range(h.n(20, 60))]
+    for spec, is_corpus in fixed + [(None, False)] * h.n(25, 300):
+        if spec is None:
+            spec = gram.productive_spec(rng, max_classes=rng.choice([3, 4, 5]), opts={"float": False})
+            if not gram.concrete_recursive_start(spec, rng):
+                continue
         b = gram.build(spec)
         try:
             g = b.extract()
@@ -228,20 +243,20 @@ def tree_crossover_generations(h: Harness, rng):
         mind = g.get_min_tree_depth()
         if mind >= 1000000:
             continue
-        d = mind + rng.choice([2, 3])
-        src = ScriptedSource([rng.randrange(0, 1000) for _ in range(20000)])
+        d = mind + (rng.choice([3, 4]) if is_corpus else rng.choice([2, 3]))
+        src = ScriptedSource([rng.randrange(0, 1000) for _ in range(120000 if is_corpus else 20000)])
         with warnings.catch_warnings():
             warnings.simplefilter("ignore")
             rep = TreeBasedRepresentation(g, synth.make_decider("grow", d, src, g))
             pool = []
-            for _ in range(4):
+            for _ in range(6 if is_corpus else 4):
                 st, v = safe(lambda: rep.create_genotype(src))
                 if st == "ok":
                     pool.append(v)
             if len(pool) < 2:
                 continue
-            h.count("concrete-start-crossover-chains")
-            for gen in range(h.n(6, 12)):
+            h.count("concrete-start-crossover-chains" + (":corpus" if is_corpus else ""))
+            for gen in range(h.n(60, 120) if is_corpus else h.n(6, 12)):
                 p1, p2 = rng.choice(pool), rng.choice(pool)
                 st, cs = safe(lambda: rep.crossover(src, p1, p2))
                 if st != "ok":
